@@ -204,12 +204,12 @@ def showbias(
             ),
             alpha=alpha,
             lower=pd.DataFrame(
-                np.squeeze(bootstrap_ci[..., 0]).tolist(),
+                bootstrap_ci[..., 0].tolist(),
                 index=group_index,
                 columns=metric_kwargs.get("threshold"),
             ),
             upper=pd.DataFrame(
-                np.squeeze(bootstrap_ci[..., 1]).tolist(),
+                bootstrap_ci[..., 1].tolist(),
                 index=group_index,
                 columns=metric_kwargs.get("threshold"),
             ),
